@@ -47,8 +47,14 @@ type c11sMon struct {
 	calls    map[string]int
 	// race mode: plain variables whose unsynchronised access the Go race
 	// detector reports exactly when the contract is broken
-	excl int // written by Update, Sync, PrepareSnapshot, RecoverFromSnapshot, Close
-	rw   int // plain SM: written by Update/Recover/Close, read by Lookup/SaveSnapshot
+	// snapshot consistency bookkeeping (C08 / C04 oracles, reported only when
+	// VERIF_C11S_ORACLE=snapshot): index of the last entry the user state machine
+	// holds, the index its state had when PrepareSnapshot ran, and the index its
+	// state had at the last Sync (on-disk state machines)
+	lastIdx, preparedIdx, syncedIdx uint64
+	ssFinds                         map[string]string
+	excl                            int // written by Update, Sync, PrepareSnapshot, RecoverFromSnapshot, Close
+	rw                              int // plain SM: written by Update/Recover/Close, read by Lookup/SaveSnapshot
 }
 
 var c11sExclusive = map[string]bool{"Update": true, "Sync": true, "PrepareSnapshot": true, "RecoverFromSnapshot": true, "Close": true}
@@ -157,6 +163,7 @@ func (s *c11sConcSM) Update(es []sm.Entry) ([]sm.Entry, error) {
 	defer s.m.call("Update")()
 	for i := range es {
 		es[i].Result = sm.Result{Value: es[i].Index}
+		s.m.lastIdx = es[i].Index
 	}
 	return es, nil
 }
@@ -166,6 +173,7 @@ func (s *c11sConcSM) Lookup(q interface{}) (interface{}, error) {
 }
 func (s *c11sConcSM) PrepareSnapshot() (interface{}, error) {
 	defer s.m.call("PrepareSnapshot")()
+	s.m.preparedIdx = s.m.lastIdx
 	return "ctx", nil
 }
 func (s *c11sConcSM) SaveSnapshot(ctx interface{}, w io.Writer, fc sm.ISnapshotFileCollection, stopc <-chan struct{}) error {
@@ -189,6 +197,7 @@ func (s *c11sDiskSM) Update(es []sm.Entry) ([]sm.Entry, error) {
 	defer s.m.call("Update")()
 	for i := range es {
 		es[i].Result = sm.Result{Value: es[i].Index}
+		s.m.lastIdx = es[i].Index
 	}
 	return es, nil
 }
@@ -198,10 +207,12 @@ func (s *c11sDiskSM) Lookup(q interface{}) (interface{}, error) {
 }
 func (s *c11sDiskSM) Sync() error {
 	defer s.m.call("Sync")()
+	s.m.syncedIdx = s.m.lastIdx
 	return nil
 }
 func (s *c11sDiskSM) PrepareSnapshot() (interface{}, error) {
 	defer s.m.call("PrepareSnapshot")()
+	s.m.preparedIdx = s.m.lastIdx
 	return "ctx", nil
 }
 func (s *c11sDiskSM) SaveSnapshot(ctx interface{}, w io.Writer, stopc <-chan struct{}) error {
@@ -236,7 +247,10 @@ func (n *c11sNode) ShouldStop() <-chan struct{}                           { retu
 // ISavable / IStreamable / IRecoverable it is handed exactly once, like the
 // real one, without touching the disk (the locks under test are all taken in
 // rsm.StateMachine before/around these calls).
-type c11sSnapshotter struct{ kind string }
+type c11sSnapshotter struct {
+	kind string
+	m    *c11sMon
+}
 
 func (s *c11sSnapshotter) GetSnapshot() (pb.Snapshot, error) {
 	return pb.Snapshot{Index: 10, Term: 1, OnDiskIndex: 10,
@@ -248,6 +262,21 @@ func (s *c11sSnapshotter) Stream(st IStreamable, meta SSMeta, sink pb.IChunkSink
 func (s *c11sSnapshotter) Shrunk(ss pb.Snapshot) (bool, error) { return false, nil }
 func (s *c11sSnapshotter) Save(sv ISavable, meta SSMeta) (pb.Snapshot, SSEnv, error) {
 	_, err := sv.Save(meta, &bytes.Buffer{}, meta.Session.Bytes(), nil)
+	if m := s.m; m != nil && !m.free && err == nil && meta.Request.Type != Exported {
+		if m.ssFinds == nil {
+			m.ssFinds = map[string]string{}
+		}
+		// C08: the image a concurrent / on-disk state machine hands out is the state PrepareSnapshot
+		// captured; the index the snapshot is labelled with must be the index of exactly that state
+		if s.kind == "concurrent" && m.preparedIdx != meta.Index { // (an on-disk state machine's local snapshot is a dummy: Prepare is not called)
+			m.ssFinds[s.kind+"/snapshot/label-differs-from-prepared-state"] = fmt.Sprintf("snapshot labelled index %d holds the state PrepareSnapshot captured at index %d", meta.Index, m.preparedIdx)
+		}
+		// C04/C08: once an on-disk state machine's snapshot at index X is recorded the log up to X may be
+		// compacted, so everything up to X must have been made durable by Sync
+		if s.kind == "ondisk" && m.syncedIdx < meta.Index {
+			m.ssFinds["ondisk/snapshot/not-synced-up-to-its-index"] = fmt.Sprintf("snapshot of the on-disk state machine at index %d recorded while Sync last ran at index %d", meta.Index, m.syncedIdx)
+		}
+	}
 	return pb.Snapshot{Index: meta.Index, Term: meta.Term}, SSEnv{}, err
 }
 func (s *c11sSnapshotter) Load(ss pb.Snapshot, l ILoadable, r IRecoverable) error {
@@ -341,7 +370,7 @@ func c11sNewWorld(sc *c11sScenario, free bool) *c11sWorld {
 		ism = NewOnDiskStateMachine(&c11sDiskSM{w.mon})
 	}
 	managed := NewNativeSM(cfg, ism, done)
-	w.s = NewStateMachine(managed, &c11sSnapshotter{kind: sc.Kind}, cfg, &c11sNode{stopc: done}, vfs.GetTestFS())
+	w.s = NewStateMachine(managed, &c11sSnapshotter{kind: sc.Kind, m: w.mon}, cfg, &c11sNode{stopc: done}, vfs.GetTestFS())
 	w.s.members.set(pb.Membership{Addresses: map[uint64]string{1: "a1"}})
 	if sc.Kind == "ondisk" {
 		if _, err := w.s.OpenOnDiskStateMachine(); err != nil {
@@ -493,6 +522,14 @@ func (w *c11sWorld) judge(o *vsched.Outcome) (map[string]string, []string) {
 		finds[w.sc.Kind+"/deadlock"] = "deadlock: " + o.Msg
 	case vsched.Livelock:
 		finds[w.sc.Kind+"/livelock"] = "livelock: " + o.Msg
+	}
+	if os.Getenv("VERIF_C11S_ORACLE") == "snapshot" {
+		// run as a part of C08: only the snapshot consistency findings count
+		finds = map[string]string{}
+		for k, v := range w.mon.ssFinds {
+			finds[k] = v
+		}
+		return finds, []string{fmt.Sprintf("prepared=%d synced=%d last=%d", w.mon.preparedIdx, w.mon.syncedIdx, w.mon.lastIdx)}
 	}
 	for k, v := range w.mon.finds {
 		finds[k] = v
